@@ -39,6 +39,8 @@ CHECKS = {
          'exhaustive fault enumeration (all crash points / bit flips of a cache file) + explicit-state search over build histories'),
  'C16': ('exploration', '4 C16', 'Part 1: every LALR-acceptable SHAPE grammar x keep_all_tokens x every input up to the bound x generated pure transformers (5 callback variants) x 4 base classes: the embedded result must equal the post-hoc transform of the plain parse. Part 2: every tree with <= 4 (thorough 5) internal nodes over 2 labels, 2 token types and None leaves: the four base classes must return equal results and invoke every callback exactly once, children before parents.',
          'bounded exhaustive differential enumeration (embedded vs post-hoc; all small trees x 4 traversal classes)'),
+ 'C18': ('model_checking', '4 C18', 'Every text of <= 4 (thorough 5) lines over 6 indentations x 8 line bodies (brackets, blanks, comment-only lines), with/without final newline, under two spellings of the newline terminal and tab_len 8/4, streamed through the real Indenter: the INDENT/DEDENT/NAME/paren sequence or DedentError must equal a reference column-stack automaton which is cross-validated against CPython tokenize on every text tokenize accepts; the object\'s (indent stack, bracket depth) is read after every token. Every sequence of <= 3 streams (complete, failing, abandoned) through one Indenter object must reproduce the fresh-object output.',
+         'exhaustive enumeration of line structures against a reference automaton (cross-validated with CPython tokenize) + explicit-state search over stream histories'),
 }
 NOT_YET = {}
 def main():
